@@ -79,9 +79,21 @@ def run_step(S, method, options=None, warmup=False):
     if warmup:
         # a previous step of a different length on the same solver object must not influence the next one
         E.call(E.get_attr(solver, 'step', cx, 0), [S.t0, S.t0 + S.dt2, S.y0, extra], {}, cx, 0)
+    del S.bm.queries[:]
     y1, extra1 = E.call(E.get_attr(solver, 'step', cx, 0), [S.t0, S.t0 + S.dt, S.y0, extra], {}, cx, 0)
     order = E.get_attr(solver, 'strong_order', cx, 0)
     return solver, y1, extra1, order
+
+
+def queries_ok(S, rep, tag):
+    """Obligation: every Brownian query of the step just executed is on exactly [t0, t0 + dt] (the increments W, U, A that enter the
+    Taylor comparison are those of the step's own interval)."""
+    t1 = S.t0 + S.dt
+    bad = [q for q in S.bm.queries if not (Poly.lift(q[0]) - S.t0).is_zero() or not (Poly.lift(q[1]) - t1).is_zero()]
+    ok = bool(S.bm.queries) and not bad
+    rep.add(f'{tag}/post.increments-queried-on-[t0,t1]', 'post', 'discharged' if ok else 'refuted', 'poly-normal-form',
+            model=None if ok else {'queries': [f'({q[0]!r}, {q[1]!r})' for q in (bad or S.bm.queries)][:3] or 'none'},
+            statement='bm is queried on (t0, t1) only, and at least once')
 
 
 def detach_arr(x):
